@@ -11,7 +11,8 @@
 """
 import ast
 
-from .common import (AnalysisError, Finding, RuleResult, ntext, walk_no_nested, is_self_attr, call_name)
+from .common import (AnalysisError, Finding, RuleResult, ntext, walk_no_nested, is_self_attr, call_name,
+                     body_stmts)
 
 RULE = 'R21'
 TEXT = ('the LP-format writer and the show() tables cover every field of the program; every '
@@ -70,6 +71,32 @@ def run(repo):
             res.fail(Finding(RULE, fi.fq, 'section %s' % section,
                              'lp_export: the `%s` section is not (only) emitted for the columns with '
                              'vtype == \'%s\'' % (section, letter), repo.where(fi), P))
+    # (g) the sign of the leading term: the writer formats every term as '<sign> <abs> x<i>'; dropping the
+    #     first two characters of the joined text is only right when they are the '+ ' of a positive term
+    from rsx.flow import MustFlow as _MF, clauses_of as _clauses_of
+    for wf in (fi, repo.func('socp.SOCProg.lp_export')):
+        class _Strip(_MF):
+            def __init__(self):
+                super().__init__()
+                self.sites = []
+
+            def visit(self, node, state):
+                for x in ast.walk(node):
+                    if isinstance(x, ast.Subscript) and isinstance(x.slice, ast.Slice) and x.slice.upper is None and \
+                            isinstance(x.slice.lower, ast.Constant) and x.slice.lower.value == 2 and x.slice.step is None:
+                        st_here = self.local_state(node, x, state)
+                        guarded = any(pol and ("'+ '" in a or "'+'" in a or '"+' in a) for c in _clauses_of(st_here)
+                                      if len(c) == 1 for a, pol in c)
+                        self.sites.append((x, guarded))
+        sf = _Strip()
+        sf.run(body_stmts(wf))
+        for x, guarded in sf.sites:
+            res.inst({'writer': wf.fq, 'leading_sign_strip': ntext(x)[:50], 'only_when_plus': guarded}, guarded)
+            if not guarded:
+                res.fail(Finding(RULE, wf.fq, 'leading sign stripped unconditionally',
+                                 '%s drops the first two characters of `%s` without having tested that they are '
+                                 'the `+ ` of a positive leading term: a negative leading coefficient loses its '
+                                 'minus sign in the written file' % (wf.fq, ntext(x.value)[:40]), repo.where(wf, x), P))
     # (e) the Bounds section has one line per column, unconditionally
     bloops = []
     for n in walk_no_nested(fi.node):
